@@ -34,8 +34,14 @@ func (s *LStack[T]) Push(item T) {
 	s.mu.Lock()
 	defer s.mu.Unlock()
 
+	if s.n == 0 {
+		// The underlying list can never be empty: once the stack has been emptied
+		// its head node is stale and has to be replaced, not followed.
+		s.list = list.InitDList(item)
+	} else {
+		s.list.Append(item)
+	}
 	s.n++
-	s.list.Append(item)
 }
 
 // Pop retrieves and removes the last element pushed into the stack.
@@ -44,10 +50,12 @@ func (s *LStack[T]) Pop() (item T) {
 	s.mu.Lock()
 	defer s.mu.Unlock()
 
-	node := s.list.Pop()
-	if s.n > 0 {
-		s.n--
+	if s.n == 0 {
+		return
 	}
+
+	node := s.list.Pop()
+	s.n--
 
 	return s.list.Val(node)
 }
@@ -57,6 +65,11 @@ func (s *LStack[T]) Peek() T {
 	s.mu.RLock()
 	defer s.mu.RUnlock()
 
+	if s.n == 0 {
+		var t T
+		return t
+	}
+
 	return s.list.Last()
 }
 
@@ -64,6 +77,10 @@ func (s *LStack[T]) Peek() T {
 func (s *LStack[T]) Search(item T) bool {
 	s.mu.RLock()
 	defer s.mu.RUnlock()
+
+	if s.n == 0 {
+		return false
+	}
 
 	if _, ok := s.list.Find(item); ok {
 		return true
